@@ -724,6 +724,16 @@ func (g *Gen) Case(i int) *Case {
 		c.Query = g.rangeFn(c)
 	case "agg":
 		c.Query = g.aggExpr(c, 1+g.r.Intn(2))
+	case "aggparam":
+		// aggregation parameters at and beyond the edges of their domain
+		inner := g.selectorCore("m")
+		if g.chance(0.3) {
+			inner = g.pick("abs", "ceil", "-") + "(" + inner + ")"
+		}
+		grp := g.pick("", "", "by (a) ", "without (b) ", "by () ")
+		par := g.pick("NaN", "Inf", "-Inf", "-1", "0", "0.5", "1", "2", "1e300", "-1e300", "scalar(absent_metric)",
+			"scalar(n)", "time()", "scalar(n) / 0", "1.5", "0.999", "9.3e18", "-9.3e18")
+		c.Query = fmt.Sprintf("%s %s(%s, %s)", g.pick("quantile", "quantile", "topk", "bottomk"), grp, par, inner)
 	case "kagg":
 		// k-selection over large groups with NaN values: the answer must not depend on the
 		// order in which the samples of a step arrive
